@@ -389,7 +389,7 @@ func (w *world) step(code, a, b, d int64) int64 {
 }
 
 func run(sel int, in []int64) []int64 {
-	if sel != 1 {
+	if sel != 1 && sel != 2 {
 		panic("unknown selector")
 	}
 	r := &rd{t: in}
@@ -429,11 +429,128 @@ func run(sel int, in []int64) []int64 {
 	return out
 }
 
+// Signatures of the documented lag races (known-findings.json).  They are attached to
+// the laws Y = not (race shape and full-strength law fails), which fail exactly on the
+// race; the companion laws X = (full-strength law or race shape) carry no signature.
+const (
+	sigRaceA = "C13-stale-lister-sync-overwrites-open"
+	sigRaceB = "C13-stale-lister-closed-with-podgroups"
+	sigRaceC = "C13-marked-child-not-reopened"
+)
+
 func laws(sel int, in, got []int64, law func(lsel int, lin []int64, sig string)) {
 	lin := append(append([]int64{}, in...), got...)
 	for l := 101; l <= 110; l++ {
 		law(l, lin, "")
 	}
+	if sel == 2 { // stale-lister stream: the laws at full strength
+		law(111, lin, "")
+		law(112, lin, "")
+		law(121, lin, sigRaceB)
+		law(122, lin, sigRaceA)
+		law(123, lin, sigRaceC)
+	}
+}
+
+// genStale scripts the histories in which the lister is deliberately delivered late.
+func genStale(r *vh.Rng, i int) (in []int64, desc map[string]any) {
+	tmpl := i % 3
+	maxrq := int64(vh.Pick(r, []int{-1, 3, 15}))
+	type q struct{ id, parent, state, ann int64 }
+	qs := []q{{1, 0, 1, 0}}
+	var pgs, ix, evs []int64
+	ne := 0
+	add := func(c, a, b, d int64) { evs = append(evs, c, a, b, d); ne++ }
+	extra := r.Chance(1, 2) // an unrelated queue
+	ann := vh.Pick(r, []int64{0, 2, 4, 5})
+	inTime := r.Chance(1, 5) // the informer happens to deliver in time: no race
+	k := r.Range(1, 3)
+	syncAction := int64(vh.Pick(r, []int{3, 4}))
+	switch tmpl {
+	case 0: // race A: Closing queue re-opened, lister late, last PodGroups deleted
+		qs = append(qs, q{2, 1, 3, ann})
+		for g := 1; g <= k; g++ {
+			pgs = append(pgs, int64(g), 2, int64(r.Range(1, 5)))
+			ix = append(ix, 2, int64(g))
+		}
+		add(1, 2, 1, 0) // vcctl queue operate -a open
+		add(11, 0, 0, 0)
+		if inTime {
+			add(9, 2, 0, 0)
+		}
+		for g := 1; g <= k; g++ {
+			add(4, int64(g), 0, 0)
+		}
+		for g := 1; g <= k; g++ {
+			add(11, 0, 0, 0)
+		}
+	case 1: // race B: Closed queue whose lister object has no spec.parent, re-opened, PodGroups arrive
+		qs = append(qs, q{2, 0, 2, ann})
+		add(1, 2, 1, 0)
+		add(11, 0, 0, 0)
+		if inTime {
+			add(9, 2, 0, 0)
+		}
+		for g := 1; g <= k; g++ {
+			add(2, int64(g), 2, int64(r.Range(1, 5)))
+		}
+		if r.Chance(1, 3) {
+			add(1, 2, syncAction, 0) // a command with an action the queue controller treats as Sync
+			k++
+		}
+		for g := 1; g <= k; g++ {
+			add(11, 0, 0, 0)
+		}
+	default: // race C: parent closed and re-opened before the lister shows the children's marker
+		qs = append(qs, q{2, 1, 1, ann})
+		nc := r.Range(1, 2)
+		for c := 0; c < nc; c++ {
+			qs = append(qs, q{int64(3 + c), 2, int64(vh.Pick(r, []int{1, 1, 0, 4})), vh.Pick(r, []int64{0, 2, 4})})
+		}
+		add(1, 2, 2, 0) // close the parent
+		add(11, 0, 0, 0)
+		add(9, 2, 0, 0) // only the parent is delivered
+		if inTime {
+			for c := 0; c < nc; c++ {
+				add(9, int64(3+c), 0, 0)
+			}
+		}
+		add(1, 2, 1, 0) // re-open the parent
+		for c := 0; c < nc+1; c++ {
+			add(11, 0, 0, 0)
+			if inTime {
+				for x := int64(2); x < int64(3+nc); x++ {
+					add(9, x, 0, 0)
+				}
+			}
+		}
+	}
+	if extra {
+		qs = append(qs, q{9, 1, int64(vh.Pick(r, []int{1, 2})), 0})
+	}
+	// the lister catches up and the work queue drains (twice)
+	for round := 0; round < 3; round++ {
+		for _, x := range qs {
+			add(9, x.id, 0, 0)
+		}
+		for d := 0; d < 4; d++ {
+			add(11, 0, 0, 0)
+		}
+	}
+	in = []int64{maxrq}
+	for rep := 0; rep < 2; rep++ { // server and lister start equal
+		in = append(in, int64(len(qs)))
+		for _, x := range qs {
+			in = append(in, x.id, x.parent, x.state, x.ann)
+		}
+	}
+	in = append(in, int64(len(pgs)/3))
+	in = append(in, pgs...)
+	in = append(in, int64(len(ix)/2))
+	in = append(in, ix...)
+	in = append(in, 0, int64(ne))
+	in = append(in, evs...)
+	return in, map[string]any{"template": []string{"race-A", "race-B", "race-C"}[tmpl], "delivered_in_time": inTime, "events": ne}
 }
 
 // ---------- generator ----------
@@ -475,6 +592,10 @@ func genForest(r *vh.Rng) []gq {
 }
 
 func gen(rng *vh.Rng, n int, emit func(id string, sel int, in []int64, kind string, nontrivial bool, desc any)) {
+	for i := 0; i < n/10+6; i++ {
+		in, desc := genStale(rng.Fork(), i)
+		emit(fmt.Sprintf("stale-%d", i), 2, in, "stale-lister", true, desc)
+	}
 	for i := 0; i < n; i++ {
 		r := rng.Fork()
 		stream := []string{"synced", "hier", "lagged", "stale-init", "hier-lagged"}[i%5]
